@@ -167,14 +167,6 @@ Definition has_write (evs : list ev) : bool :=
   existsb (fun e => match e with EWrite _ => true | _ => false end) evs.
 Definition has_start (evs : list ev) : bool :=
   existsb (fun e => match e with EStart _ _ _ => true | _ => false end) evs.
-Definition only_yields (its : list item) : bool :=
-  forallb (fun i => match i with IYield _ => true | IEv _ => false end) its.
-
 (* webob consumes the iterable itself iff the application wrote before returning or has not
    called start_response yet *)
 Definition webob_consumes (a : app) : bool := has_write (a_call a) || negb (has_start (a_call a)).
-
-(* the shape excluded by the positive theorem (KNOWN finding): start_response called eagerly,
-   nothing written eagerly, and the iterable does more than yield *)
-Definition lazy_events_after_eager_start (a : app) : bool :=
-  negb (webob_consumes a) && negb (only_yields (a_items a)).
